@@ -32,6 +32,10 @@ class Model(LPModel):
         self.aux_bounds = []
         self.aux_ipc = []
         self.cvx_constr = []
+        # an emptied model is a different model: a cached formulation of
+        # the previous constraints must not be returned for it
+        self.pupdate = True
+        self.dupdate = True
 
     def st(self, constr):
         """
